@@ -48,6 +48,7 @@ def compile_program(lines):
     cur = Proc("")
     procs[""] = cur
     stack = []
+    seen_ids = {}  # per procedure: identifiers referenced so far, in textual order
 
     def emit(kind, st=None, **kw):
         cur.instrs.append({"k": kind, "st": st, **kw})
@@ -72,6 +73,11 @@ def compile_program(lines):
                 if ln.label is not None and k == "comment":
                     emit("nop", st)
                 continue
+            if k not in ("dim", "param", "type", "data"):
+                for e_ in parse.stmt_exprs(st):
+                    for sub in parse.walk_expr(e_):
+                        if sub[0] in ("var", "idx"):
+                            seen_ids.setdefault(id(cur), set()).add(sub[1].upper().split(".")[0])
             if k == "base":
                 cur.base = st.n
             elif k == "type":
@@ -86,6 +92,10 @@ def compile_program(lines):
                         d = {"dims": dims, "type": g["type"], "size": g["size"]}
                         if nm.upper() in cur.decls:
                             raise B09Error("identifier %s declared twice" % nm)
+                        if nm.upper() in seen_ids.setdefault(id(cur), set()):
+                            # BASIC09 declares a name implicitly (REAL, or STRING for names ending in $) at its first use; a DIM further down
+                            # then defines it a second time
+                            raise B09Error("identifier %s is declared after it has already been used (it was implicitly declared there)" % nm)
                         cur.decls[nm.upper()] = d
                         if k == "param":
                             cur.params.append(nm)
